@@ -102,3 +102,14 @@ package xstar
 //@   ensures cast("*socket", result).ttl == 8
 //@
 // ---- end generated default contracts ----
+// ---- generated current-queue contracts (from `govc sites -select`): the select uses the socket's queues as of the last time the lock was held ----
+//@ func (*pipe).receiver
+//@   before select#2 assert selsends(p.s.recvq)
+//@
+//@ func (*pipe).sender
+//@   before select#1 assert selwaits(p.sendq)
+//@
+//@ func (*socket).RecvMsg
+//@   before select#1 assert selwaits(s.recvq)
+//@
+// ---- end generated current-queue contracts ----
